@@ -1303,5 +1303,77 @@ more=[("""			c.handle(cmd, arg)
 			}
 		} else {""")])
 
+seed("c10-client-starttls-454-ok", "C10", "R-ctls-success-effects", "client.go",
+"""	_, _, err := c.cmd(220, "STARTTLS")
+	if err != nil {
+		return err
+	}""", """	_, _, err := c.cmd(220, "STARTTLS")
+	if err != nil {
+		if smtpErr, ok := err.(*SMTPError); ok && smtpErr.Temporary() {
+			return nil
+		}
+		return err
+	}""", "a 454 answer to STARTTLS is not an error: the caller continues in plaintext")
+seed("c20-registered-after-handshake", "C20", "R-close-effects", "server.go",
+"""	s.locker.Lock()
+	s.conns[c] = struct{}{}
+	s.locker.Unlock()
+
+	defer func() {
+		c.Close()
+
+		s.locker.Lock()
+		delete(s.conns, c)
+		s.locker.Unlock()
+	}()
+
+	if tlsConn, ok := c.conn.(*tls.Conn); ok {
+		if d := s.ReadTimeout; d != 0 {
+			c.conn.SetReadDeadline(time.Now().Add(d))
+		}
+		if d := s.WriteTimeout; d != 0 {
+			c.conn.SetWriteDeadline(time.Now().Add(d))
+		}
+		if err := tlsConn.Handshake(); err != nil {
+			return err
+		}
+	}
+""", """	defer c.Close()
+
+	if tlsConn, ok := c.conn.(*tls.Conn); ok {
+		if d := s.ReadTimeout; d != 0 {
+			c.conn.SetReadDeadline(time.Now().Add(d))
+		}
+		if d := s.WriteTimeout; d != 0 {
+			c.conn.SetWriteDeadline(time.Now().Add(d))
+		}
+		if err := tlsConn.Handshake(); err != nil {
+			return err
+		}
+	}
+
+	s.locker.Lock()
+	s.conns[c] = struct{}{}
+	s.locker.Unlock()
+
+	defer func() {
+		s.locker.Lock()
+		delete(s.conns, c)
+		s.locker.Unlock()
+	}()
+""", "Server.Close cannot end a connection that is still in its TLS handshake")
+seed("c04-limiter-asked-before-read", "C04", "R-toolong-no-partial", "conn.go",
+"""	line, err := c.text.ReadLine()
+	if err == nil && c.lineLimitReader.exceeded() {
+		// The buffered reader hands out what it already held of a line and
+		// drops the error when the rest of the line turns out to be too
+		// long: the beginning of such a line must not be taken for a command.
+		return "", ErrTooLongLine
+	}
+	return line, err""", """	if c.lineLimitReader.exceeded() {
+		return "", ErrTooLongLine
+	}
+	return c.text.ReadLine()""", "the limiter is consulted before the read instead of after it")
+
 json.dump(S, open(os.path.join(os.path.dirname(os.path.abspath(__file__)), "bank.json"), "w"), indent=1)
 print(len(S), "seeds")
